@@ -4,7 +4,6 @@ import (
 	"fmt"
 	"net/http"
 	"net/url"
-	"regexp"
 	"slices"
 	"strings"
 	"sync"
@@ -32,7 +31,24 @@ var charsets = map[string]string{
 	"hex":     "0123456789abcdef",
 }
 
-var deviceCodeRE = regexp.MustCompile(`^[A-Za-z0-9_-]{22}$`)
+// deviceCodeOK: what "an unguessable device code" supports as a format demand. Not the library's
+// present encoding (22 base64url characters of 16 random bytes), only its floor: at least 22
+// characters (128 bit as base64url of random bytes; any longer or differently encoded code passes),
+// valid UTF-8 without control characters or blanks, and unchanged by a form-encoding round trip (the
+// way the device sends it back). Distinctness and dependence on the crypto/rand stream are judged
+// by the callers of this predicate.
+func deviceCodeOK(dc string) string {
+	if n := utf8.RuneCountInString(dc); n < 22 {
+		return fmt.Sprintf("%d characters: fewer than the 22 that 128 random bits need in base64url", n)
+	}
+	if !utf8.ValidString(dc) || strings.ContainsFunc(dc, func(r rune) bool { return r <= ' ' || r == 0x7f }) {
+		return "contains control characters, blanks or invalid UTF-8"
+	}
+	if back, err := url.ParseQuery(url.Values{"device_code": {dc}}.Encode()); err != nil || back.Get("device_code") != dc {
+		return "does not survive a form-encoding round trip"
+	}
+	return ""
+}
 
 func formatSpace(c *engine.Check) engine.Space {
 	return engine.Space{
@@ -231,8 +247,8 @@ func formatCase(r *rig.Rig, router int, client string, k fmtCfg) engine.Result {
 		bad := func(aspect, class, detail string) engine.Result {
 			return engine.Bad("da-format", "bad-"+aspect, "C16/devauth-format/"+rn+"/"+aspect+class, detail)
 		}
-		if !deviceCodeRE.MatchString(got[i].dc) {
-			return bad("device-code", "", fmt.Sprintf("device code %q is not 22 base64url characters", got[i].dc))
+		if why := deviceCodeOK(got[i].dc); why != "" {
+			return bad("device-code", "", fmt.Sprintf("device code %q: %s", got[i].dc, why))
 		}
 		if why := checkUserCode(got[i].uc, []rune(charsets[k.charset]), k.amount, k.dash); why != "" {
 			return bad("user-code", "", fmt.Sprintf("user code %q: %s", got[i].uc, why))
